@@ -94,9 +94,13 @@ def ensure_makefile():
 
 def coq_make(targets=None, timeout=1500):
     """Full .vo build of the given targets (paths relative to coq/), all by default."""
+    os.makedirs(BUILD, exist_ok=True)
+    sh("flock %s/coq.lock true" % BUILD)
     ensure_makefile()
     tgt = " ".join(targets) if targets else ""
-    rc, out, dt = sh("timeout %d make -f Makefile.coq -j%d %s" % (timeout, NCPU, tgt), cwd=COQ, timeout=timeout + 30)
+    os.makedirs(BUILD, exist_ok=True)
+    rc, out, dt = sh("flock %s/coq.lock timeout %d make -f Makefile.coq -j%d %s" % (BUILD, timeout, NCPU, tgt),
+                     cwd=COQ, timeout=2 * timeout + 60)
     return rc, out, dt
 
 
@@ -245,10 +249,16 @@ def scratch(prop_id):
 # ---------------------------------------------------------------------------
 
 def load_known():
+    res = []
     p = os.path.join(VERIF, "known_findings.json")
-    if not os.path.exists(p):
-        return []
-    return json.load(open(p))
+    if os.path.exists(p):
+        res.extend(json.load(open(p)))
+    d = os.path.join(VERIF, "known_findings.d")
+    if os.path.isdir(d):
+        for f in sorted(os.listdir(d)):
+            if f.endswith(".json"):
+                res.extend(json.load(open(os.path.join(d, f))))
+    return res
 
 
 def known_signatures(prop_id):
